@@ -399,3 +399,128 @@ Proof.
   - (* End_finish *) intros a e Ha Ra. ends_cases Ha; [discriminate|]. exfalso.
     assert (a = i) by (eapply K1; eauto). contradiction.
 Qed.
+
+Lemma reach_once : forall max s, reachable V1 max s -> inv_once s.
+Proof.
+  intros max s R. induction R.
+  - unfold inv_once. cbn. repeat split; intros; try discriminate; try (destruct i; discriminate).
+  - eapply inv_once_step; eauto.
+Qed.
+
+(* the repaired code never panics *)
+Lemma v1_no_panic : forall max s, reachable V1 max s -> panicked s = false.
+Proof.
+  intros max s R. induction R; [reflexivity|].
+  pose proof (reach_end _ _ _ R) as (E1 & E2 & _).
+  pose proof (reach_once _ _ R) as (K1 & K2 & K3 & K4 & K5 & K6 & K7 & K8).
+  destruct l; step_inv H; cbn in *; try assumption; exfalso.
+  - (* send on closed channel *) specialize (E2 eq_refl). discriminate.
+  - (* close(melt) twice *) specialize (K5 _ Heqo). congruence.
+  - (* close(snowflakeChan) twice *)
+    destruct (K8 eq_refl) as [Hd|(j & e & Hj & HP)].
+    + pose proof (K2 _ _ Heqo eq_refl). congruence.
+    + assert (j = i) by (eapply K1; eauto; destruct e; simpl in *; congruence). subst.
+      rewrite Heqo in Hj. inversion Hj; subst. discriminate.
+Qed.
+
+(* ---------------------------------------------------------------- End closes everything; nothing starts after End *)
+
+Lemma all_closed_no_live : forall s, all_closed s -> live_peers s = [].
+Proof.
+  intros s H. unfold live_peers.
+  assert (forall l, (forall p, In p l -> p < next_peer s) -> filter (live s) l = []) as G.
+  { induction l as [|a l IH]; intros Hl; simpl; [reflexivity|].
+    unfold live at 1. rewrite (H a) by (apply Hl; left; reflexivity). simpl.
+    apply IH. intros q Hq. apply Hl. right. assumption. }
+  apply G. intros p Hp. apply in_seq in Hp. lia.
+Qed.
+
+Lemma end_done_facts : forall v max s i, reachable v max s -> nth_error (ends s) i = Some E_Done ->
+  all_closed s /\ live_peers s = [] /\ melted s = true /\ chan_closed s = true /\ col_hasconn (col s) = false.
+Proof.
+  intros v max s i R Hd. pose proof (reach_end _ _ _ R) as (E1 & E2 & E3 & E4 & E5 & E6).
+  assert (Hc : chan_closed s = true) by (eapply E4; eauto).
+  assert (Ha : all_closed s) by (eapply E5; eauto).
+  repeat split; auto using all_closed_no_live.
+Qed.
+
+(* Collect called once End has begun (melt closed) is refused without calling Catch *)
+Lemma collect_refused_after_melt : forall v s s', melted s = true -> step v s Col_check = Some s' ->
+  col s' = C_Unlock R_Melted.
+Proof. intros v s s' Hm H. step_inv H; cbn; congruence. Qed.
+
+(* a Catch only ever begins while melt is still open *)
+Lemma catch_begins_unmelted : forall v s l s', step v s l = Some s' ->
+  col s' = C_Catching -> col s <> C_Catching -> melted s = false.
+Proof.
+  intros v s l s' H Hc Hn. destruct l; step_inv H; cbn in *; try congruence.
+Qed.
+
+(* peers in the channel and in poppers' hands exist *)
+Definition inv_chanfresh (s : state) : Prop :=
+  (forall p, In p (chan s) -> p < next_peer s) /\
+  (forall i p, nth_error (pops s) i = Some (P_Got p) -> p < next_peer s).
+
+Ltac pops_cases Hn :=
+  first
+  [ unfold set_pop in Hn; cbn in Hn; rewrite nth_error_set_nth in Hn;
+    match type of Hn with (if Nat.eqb ?j ?i then _ else _) = _ =>
+      destruct (Nat.eqb_spec j i);
+      [ subst;
+        match type of Hn with match ?x with _ => _ end = _ =>
+          first [ match goal with Heq : x = _ |- _ => rewrite Heq in Hn end
+                | destruct x eqn:?; [|discriminate] ] end;
+        inversion Hn; subst; clear Hn
+      | ] end
+  | apply nth_error_snoc in Hn; destruct Hn as [Hn|[? ?]]; [|subst]
+  | idtac ].
+
+Lemma inv_chanfresh_step : forall v s l s', inv_fresh s -> inv_chanfresh s -> step v s l = Some s' -> inv_chanfresh s'.
+Proof.
+  intros v s l s' (_ & _ & Fp) [Hc Hg] H. unfold inv_chanfresh.
+  destruct l; step_inv H; cbn in *; split; try assumption.
+  all: try (intros q Hq; specialize (Hc _ Hq); lia).
+  all: try (intros j q Hq; specialize (Hg _ _ Hq); lia).
+  all: try (intros j q Hq; pops_cases Hq; try discriminate; eauto; fail).
+  - intros q Hq. apply in_app_or in Hq. destruct Hq as [Hq|[<-|[]]]; auto.
+  - rewrite Heql. intros q [].
+  - intros q Hq. apply Hc. right. assumption.
+Qed.
+
+Lemma reach_chanfresh : forall v max s, reachable v max s -> inv_chanfresh s.
+Proof.
+  intros v max s R. induction R.
+  - split; cbn; intros; try contradiction. destruct i; discriminate.
+  - eapply inv_chanfresh_step; eauto using reach_fresh.
+Qed.
+
+(* Pop: a returned peer was open when Pop tested it *)
+Lemma pop_returns_checked : forall v s i s' p, step v s (Pop_check i) = Some s' ->
+  nth_error (pops s') i = Some (P_Ret (Some p)) ->
+  nth_error (pops s) i = Some (P_Got p) /\ closedf s p = false.
+Proof.
+  intros v s i s' p H Hr. step_inv H; cbn in Hr; rewrite nth_error_set_nth, Nat.eqb_refl, Heqo in Hr.
+  - discriminate.
+  - inversion Hr; subst. auto.
+Qed.
+
+(* ... and it is only by that step that a Pop returns a peer *)
+Lemma pop_ret_only_by_check : forall v s l s' i p, step v s l = Some s' ->
+  nth_error (pops s') i = Some (P_Ret (Some p)) -> nth_error (pops s) i <> Some (P_Ret (Some p)) ->
+  l = Pop_check i.
+Proof.
+  intros v s l s' i p H Hr Hn. destruct l; step_inv H; cbn in *; try congruence.
+  all: try (pops_cases Hr; try discriminate; try congruence; fail).
+Qed.
+
+(* after End has returned, Pop returns nil and does not block *)
+Lemma pop_after_end : forall v max s i j, reachable v max s -> nth_error (ends s) i = Some E_Done ->
+  (forall s' p, step v s (Pop_check j) = Some s' -> nth_error (pops s') j <> Some (P_Ret (Some p))) /\
+  (panicked s = false -> nth_error (pops s) j = Some P_Wait -> exists s', step v s (Pop_recv j) = Some s').
+Proof.
+  intros v max s i j R Hd. destruct (end_done_facts _ _ _ _ R Hd) as (Ha & _ & _ & Hc & _).
+  destruct (reach_chanfresh _ _ _ R) as [_ Hg]. split.
+  - intros s' p H Hr. destruct (pop_returns_checked _ _ _ _ _ H Hr) as [Hgot Hcl].
+    rewrite (Ha p) in Hcl; [discriminate|]. eapply Hg; eauto.
+  - intros Hp Hw. unfold step. rewrite Hp, Hw. destruct (chan s); [rewrite Hc|]; eauto.
+Qed.
